@@ -79,6 +79,7 @@ type simRoutesScenario struct {
 	noAPI   bool
 	noPeers bool
 	noDrain bool // teardown without force-draining the peers' queues (C20 leak oracle)
+	maxPfx  int    // if >0: bot 0's neighbour is configured with this prefix limit (per family)
 	src     string // if set: only the bots whose index digit occurs here announce / withdraw
 	flap    string // if set: only the bots whose index digit occurs here go down / up
 	// C02 model: what each bot announced on its current session
@@ -117,6 +118,8 @@ func init() {
 				sc.noPeers = true
 			case "nodrain":
 				sc.noDrain = true
+			case "maxpfx":
+				fmt.Sscan(v, &sc.maxPfx)
 			case "src":
 				sc.src = v
 			case "flap":
@@ -135,7 +138,19 @@ func (sc *simRoutesScenario) Setup(w *simWorld) {
 	var _ *api.Global // default global families: ipv4-unicast + ipv6-unicast
 	w.start()
 	for i := 0; i < len(sc.cfg); i++ {
-		w.addBot(simBotKinds[sc.cfg[i]](i))
+		spec := simBotKinds[sc.cfg[i]](i)
+		if i == 0 && sc.maxPfx > 0 {
+			inner, lim := spec.Neighbor, uint32(sc.maxPfx)
+			spec.Neighbor = func(n *oc.Neighbor) {
+				if inner != nil {
+					inner(n)
+				}
+				for j := range n.AfiSafis {
+					n.AfiSafis[j].PrefixLimit.Config.MaxPrefixes = lim
+				}
+			}
+		}
+		w.addBot(spec)
 	}
 	w.advance(time.Second) // idle hold timer: Idle -> Active
 	for _, b := range w.bots {
